@@ -71,14 +71,14 @@ c04_gamma!(c04_gamma_f32, f32);
 macro_rules! c03_gamma {
     ($name:ident, $f:ty, $minsh:expr, $maxsh:expr, $minsc:expr, $maxsc:expr) => {
         vproof_zstub! {
-            #[kani::unwind(3)]
+            #[kani::unwind(5)]
             fn $name() {
+                let mut rng = SymRng::new(3); // all symbolic inputs are drawn first (replay alignment)
                 let shape: $f = kani::any();
                 let scale: $f = kani::any();
                 let d = match Gamma::<$f>::new(shape, scale) { Ok(d) => d, Err(_) => return };
                 kani::assume(shape >= $minsh && shape <= $maxsh && scale >= $minsc && scale <= $maxsc);
                 // one Marsaglia-Tsang trial: normal draw + Open01 draw (+ one more Open01 draw for shape < 1)
-                let mut rng = SymRng::new(3);
                 let x: $f = d.sample(&mut rng);
                 vassert!(x == x, "Gamma sample is NaN");
                 vassert!(x >= 0.0, "Gamma sample is negative");
@@ -98,7 +98,7 @@ macro_rules! c03_gamma {
 }
 //@ id: c03_gamma_f64
 //@ prop: C03
-//@ tier: quick
+//@ tier: thorough
 //@ cap: 1500
 //@ funcs: Gamma::<f64>::new; Gamma::<f64>::sample; GammaLargeShape::sample_unscaled (Marsaglia-Tsang trial); GammaSmallShape::sample; Exp::sample
 //@ bounds: shape in [1e-3, 1e6], scale in [1e-100, 1e100]; first Marsaglia-Tsang trial (<= 3 words)
@@ -117,11 +117,11 @@ macro_rules! c03_gamma_inf {
     ($name:ident, $f:ty) => {
         vproof_zstub! {
             fn $name() {
+                let mut rng = SymRng::new(1); // all symbolic inputs are drawn first (replay alignment)
                 let shape: $f = kani::any();
                 let scale: $f = kani::any();
                 kani::assume(shape == <$f>::INFINITY || scale == <$f>::INFINITY);
                 let d = match Gamma::<$f>::new(shape, scale) { Ok(d) => d, Err(_) => return };
-                let mut rng = SymRng::new(1);
                 let x: $f = d.sample(&mut rng);
                 vassert!(x == <$f>::INFINITY, "Gamma with an infinite parameter must yield +inf (documented), not NaN");
                 kani::cover!(true, "reached");
